@@ -1,0 +1,55 @@
+//go:build verif
+
+package iavl
+
+// Read-only accessors for the verification harness (/verif). Compiled only with `-tags verif`;
+// nothing here is referenced by production code and nothing here mutates a tree.
+
+// ShapeNode is one node of a pre-order shape dump: the routing/leaf key, the stored height, size
+// and version fields, and (for leaves) the value.
+type ShapeNode struct {
+	Key     []byte
+	Value   []byte // leaves only
+	Height  int8
+	Size    int64
+	Version int64
+}
+
+// DumpShape returns the nodes of the tree in pre-order (node, left subtree, right subtree).
+// An empty tree gives an empty slice. Children are reached the same way every read reaches them
+// (in-memory pointer if present, node DB otherwise).
+func (t *ImmutableTree) DumpShape() []ShapeNode {
+	var out []ShapeNode
+	if t == nil || t.root == nil {
+		return out
+	}
+	var walk func(n *Node)
+	walk = func(n *Node) {
+		sn := ShapeNode{Key: n.key, Height: n.height, Size: n.size, Version: n.version}
+		if n.isLeaf() {
+			sn.Value = n.value
+			out = append(out, sn)
+			return
+		}
+		out = append(out, sn)
+		walk(n.getLeftNode(t))
+		walk(n.getRightNode(t))
+	}
+	walk(t.root)
+	return out
+}
+
+// DumpShape dumps the working tree of a MutableTree.
+func (tree *MutableTree) DumpShape() []ShapeNode {
+	return tree.ImmutableTree.DumpShape()
+}
+
+// DumpLastSavedShape dumps the tree most recently saved (what Rollback returns to).
+func (tree *MutableTree) DumpLastSavedShape() []ShapeNode {
+	return tree.lastSaved.DumpShape()
+}
+
+// WorkingTree exposes the embedded working ImmutableTree (read-only use).
+func (tree *MutableTree) WorkingTree() *ImmutableTree {
+	return tree.ImmutableTree
+}
